@@ -1,4 +1,6 @@
--- stub: component `locale` not built yet
+import Driver.Locale
+open Driver
+
 def main : IO UInt32 := do
-  IO.eprintln "driver-locale: not implemented"
-  return 2
+  runComponent Locale.init Locale.step
+  return 0
